@@ -14,6 +14,7 @@ this is also the stage that searches the implementation for a concrete failing i
 """
 import importlib.util  # noqa: F401
 import itertools
+import os
 import re
 import time
 
@@ -146,8 +147,87 @@ def run(ctx):
     ctx.cov["correspondence"]["sort_states"] = len(reqs)
     ctx.cov["rule"] += "; C05: plus one evaluation per staircase state given to both the literal model loop and the real sort_trajstate (non-trivial when at least one swap is needed)"
     enum_stage(ctx, runner)
+    accepted_stage(ctx)
     # concrete failing inputs first
     ctx.violations.sort(key=lambda v: not v[2])
+
+
+def accepted_case(case):
+    """(n_intf, lm1, moves, W, seed): is the configuration accepted by the real setup_config, and if so does a short run get
+    through?  One forked child per case."""
+    import shutil
+    import tempfile
+    import traceback
+    import sysharness as H
+    n_intf, lm1, moves, W, seed = case
+    wd = tempfile.mkdtemp(prefix="c05acc_")
+    try:
+        H.write_setup(wd, n_intf=n_intf, moves=list(moves), workers=W, steps=2 * n_intf + 2, seed=seed, wall=-3, lambda_minus_one=lm1)
+        old = os.getcwd()
+        os.chdir(wd)
+        try:
+            from infretis.setup import setup_config
+            H.reset_class_state()
+            try:
+                cfg = setup_config("infretis.toml")
+            except Exception as e:      # noqa: BLE001
+                return {"accepted": False, "why": f"{type(e).__name__}: {e}"[:200]}
+        finally:
+            os.chdir(old)
+        if cfg is None:
+            return {"accepted": False, "why": "setup_config returned None"}
+        try:
+            res = H.run_sim(wd)
+        except Exception as e:          # noqa: BLE001
+            tb = traceback.extract_tb(e.__traceback__)
+            where = "; ".join(f"{os.path.basename(f.filename)}:{f.lineno} {f.name}" for f in tb[-3:])
+            return {"accepted": True, "stall": f"{type(e).__name__}: {e}"[:200], "where": where}
+        return {"accepted": True, "status": res["status"], "completed": len(res.get("completed") or [])}
+    finally:
+        shutil.rmtree(wd, ignore_errors=True)
+
+
+def accepted_stage(ctx):
+    """Every worker count the real check_config ACCEPTS must be one with which a job can always be drawn: configurations
+    with and without lambda_minus_one, shooting / wire fencing, workers 1 .. ensembles + 1, several seeds (a zero swap
+    among the start-up picks takes two ensembles for one worker)."""
+    import sysharness as H
+    quick = ctx.tier == "quick"
+    cases = []
+    for n_intf in ((2, 3, 4) if quick else (2, 3, 4, 5)):
+        for lm1 in (None, -2.0):
+            for moves in (("sh",) * n_intf, tuple("wf" if i % 2 else "sh" for i in range(n_intf))):
+                for W in range(1, n_intf + 2):
+                    for seed in range(4 if quick else 12):
+                        cases.append((n_intf, lm1, moves, W, seed))
+    results = H.run_many(accepted_case, cases, jobs=14, timeout=300)
+    nbad = 0
+    acc_max = {}
+    for case, (tag, res) in zip(cases, results):
+        n_intf, lm1, moves, W, seed = case
+        if tag != "ok":
+            if nbad < 4:
+                nbad += 1
+                ctx.violation(f"harness failure on accepted-configuration case {case}: {str(res)[:300]}", {"accepted_case": list(case), "error": str(res)[:2000]}, found_input=False)
+            continue
+        ctx.count(("accepted", case), nontrivial=bool(res.get("accepted")))
+        ctx.dist(f"accepted-workers:E{n_intf}:{'lm1' if lm1 is not None else 'plain'}:W{W}:{'accepted' if res.get('accepted') else 'rejected'}")
+        if not res.get("accepted"):
+            continue
+        key = (n_intf, lm1 is not None)
+        acc_max[key] = max(acc_max.get(key, 0), W)
+        if res.get("stall") and nbad < 4:
+            nbad += 1
+            ctx.violation(f"C05 statement fails on the implementation: the configuration with {n_intf} ensembles, "
+                          f"{'lambda_minus_one = ' + repr(lm1) if lm1 is not None else 'no lambda_minus_one'}, moves {list(moves)}, {W} workers, seed {seed} "
+                          f"is accepted by setup_config, and the run stalls: {res['stall']} ({res['where']})",
+                          {"accepted_case": list(case), "result": res}, found_input=True)
+        elif not res.get("stall") and (res.get("status") != "done" or res.get("completed") != 2 * n_intf + 2) and nbad < 4:
+            nbad += 1
+            ctx.violation(f"C05 statement fails on the implementation: accepted configuration {case} ends with status {res.get('status')} after "
+                          f"{res.get('completed')} of {2 * n_intf + 2} steps", {"accepted_case": list(case), "result": res}, found_input=True)
+    ctx.cov["correspondence"]["accepted_worker_counts"] = {f"E{k[0]}{':lm1' if k[1] else ''}": v for k, v in sorted(acc_max.items())}
+    ctx.cov["rule"] += "; accepted-configuration family: one evaluation per (ensembles, lambda_minus_one, moves, workers, seed), non-trivial when setup_config accepts it"
 
 
 def enum_stage(ctx, runner):
@@ -215,6 +295,11 @@ def replay(doc):
     rp = doc["replay"]
     if "enum" in rp:
         return E.replay_failure(rp["enum"])
+    if "accepted_case" in rp:
+        c = rp["accepted_case"]
+        (tag, res), = H.run_many(accepted_case, [(c[0], c[1], tuple(c[2]), c[3], c[4])], jobs=1)
+        print(tag, res)
+        return 1 if (tag != "ok" or (res.get("accepted") and (res.get("stall") or res.get("status") != "done"))) else 0
     if "sort_request" in rp:
         print("model", rp["model"], "impl", rp["impl"])
         return 1
